@@ -19,6 +19,8 @@ THEOREMS = [
     "shouldFinish_new", "block_roundtrip_plain_of", "block_roundtrip_plain_fixed", "block_roundtrip_nullable", "block_roundtrip_plain_char",
     "block_roundtrip_rle", "block_roundtrip_dict", "block_roundtrip_blob", "column_roundtrip", "column_roundtrip_exact",
     "iter_refines_slice_partial", "iter_refines_slice_scan",
+    "nextBatch_specX", "skipBlocks_spec", "skipFake_spec", "skip_spec", "takeWhile_wf", "new_good_at", "full_spec",
+    "iter_refines_slice_all", "iter_refines_slice_full", "specFull_batches", "iter_refines_slice_full_holds",
     "nonnullable_null_witness", "nullable_cross_block_regression", "replace_whole_bitmap_loses_rows", "char_embedded_nul_witness",
     "rle_eq_not_identity_witness", "cut_concat", "cut_blocks_nonempty", "index_exact", "index_covers",
 ]
@@ -399,7 +401,8 @@ def run(ck):
         "samples": [r[:300] for r in gen_lines[:3] + corpus[:2]],
         "model_vs_impl": mvi, "impl_vs_oracle": ivo, "model_vs_oracle": mvo,
         "not_modelled_byte_exact": ["decimal", "interval", "timestamp", "vector"],
-        "unproved": ["iter_refines_slice for programs with skip / a start row > 0 (skip_inner, fake iterator, block_of_row): covered by the correspondence run only"],
+        "unproved": ["the RLE / dictionary BLOCK iterators are modelled by logical position (run cursor, never_used validated by the correspondence run only)",
+                     "block round-trips of decimal / interval / timestamp / vector (no byte model)"],
     })
     return ck.finish(level="proof", checker_cmd="translator/gen_consts.py; lake build RlModel.Thm.C06 drv_c06; #print axioms audit",
                      trusted_base=["Lean 4 kernel (axioms: propext, Classical.choice, Quot.sound)",
